@@ -41,7 +41,7 @@ Theorem remove_old keystore ecdsa eddsa eddsa_ph (pub : bytes -> bytes) ecdsa_ve
   sign_envelope keystore ecdsa eddsa eddsa_ph ent (CTag t (CMap kvs)) kn kid alg ctx act_remove_old = Ok (env', ent') ->
   exists pre post x d0 rest dg sig kind key,
     old = pre ++ a0 :: post /\ first_tagged 18 pre = Ok None /\ py_loads a0 = Ok (CTag 18 x)
-    /\ pre ++ post = CBytes d0 :: rest /\ py_loads (CBytes d0) = Ok dg /\ keystore kn = Some (kind, key)
+    /\ pre ++ post = CBytes d0 :: rest /\ py_loads (CBytes d0) = Ok dg /\ keystore ctx kn = Some (kind, key)
     /\ same_but_wrapper (CTag t (CMap kvs)) env' w
          (encode (CArray ((pre ++ post) ++ [CBytes (encode (cose_sign1 (encode (spec_protected id kid)) sig))])))
     /\ cose_verify ecdsa_verify eddsa_verify eddsa_ph_verify kind (pub key) alg
@@ -66,7 +66,7 @@ Theorem key_type_mismatch_refused keystore ecdsa eddsa eddsa_ph ent infile t kvs
   load_envelope infile = Ok (CTag t (CMap kvs)) ->
   dict_get kvs (CUint 2) = Some (CBytes w) -> py_loads (CBytes w) = Ok (CArray old) -> first_tagged 18 old = Ok None ->
   old = d0 :: rest -> py_loads d0 = Ok dg -> spec_cose_alg alg = Some id ->
-  keystore kn = Some (kind, key) -> match kind with KEc ks => 0 <= ks | _ => True end -> spec_key_matches kind alg = false ->
+  keystore ctx kn = Some (kind, key) -> match kind with KEc ks => 0 <= ks | _ => True end -> spec_key_matches kind alg = false ->
   (forall msg, kms_sign keystore ecdsa eddsa eddsa_ph ent msg kn alg ctx = Raise ValueError)
   /\ cli_sign_single keystore ecdsa eddsa eddsa_ph ent infile kn kid alg ctx action = Raise ValueError.
 Proof. exact (c09_key_mismatch keystore ecdsa eddsa eddsa_ph ent infile t kvs w old d0 rest dg kn kid alg ctx action id kind key). Qed.
@@ -150,7 +150,7 @@ Example signed_input_nonvacuous :
     /\ exists e', toy_sign 1 toy_signed (s2b "ed") 9 a_eddsa act_remove_old = Ok (e', 1%nat) /\ blen (ser e') < blen (ser toy_signed).
 Proof.
   eexists _, _, _, _. split; [vm_compute; reflexivity|]. split; [split; [vm_compute; reflexivity|]; split; vm_compute; reflexivity|].
-  split; [vm_compute; repeat constructor|]. split; [vm_compute; reflexivity|]. split; [vm_compute; reflexivity|].
+  split; [repeat (constructor; [unfold blen; cbn [length]; lia|]); constructor|]. split; [vm_compute; reflexivity|]. split; [vm_compute; reflexivity|].
   eexists. split; [vm_compute; reflexivity|]. vm_compute. reflexivity.
 Qed.
 (* a two-level configuration: both levels are signed, the dependency first, each with its own key; the child inherits the scripts *)
